@@ -12,6 +12,7 @@ import (
 // H_C13_empty: prettyDiff(a, b) == "" iff a == b, colours on and off.
 func H_C13_empty() {
 	vxrt.EnvPresent("NO_COLOR")
+	calibratePrettyDiff()
 	n := vxrt.Param("n", 3)
 	a := vxrt.Text("a", vxrt.Len("na", vxrt.Param("nalo", 0), vxrt.Param("nahi", n)))
 	b := vxrt.Text("b", vxrt.Len("nb", vxrt.Param("nblo", 0), vxrt.Param("nbhi", n)))
@@ -28,6 +29,7 @@ func H_C13_empty() {
 // shown lines from both texts leaves the same lines.
 func H_C13_render() {
 	vxrt.EnvFixed("NO_COLOR", "1")
+	calibratePrettyDiff()
 	la := vxrt.Len("la", 0, vxrt.Param("lines", 3))
 	lb := vxrt.Len("lb", 0, vxrt.Param("lines", 3))
 	mk := func(label string, n int) (string, []string) {
@@ -112,6 +114,7 @@ func checkDiffReport(rep string, aLines, bLines []string) {
 // as H_C13_render, in particular the header counts cover every hunk.
 func H_C13_render_long() {
 	vxrt.EnvFixed("NO_COLOR", "1")
+	calibratePrettyDiff()
 	n := vxrt.Param("lines", 24)
 	p1 := 2 + vxrt.Choice("first-place", 2)
 	p2 := n - 4 + vxrt.Choice("second-place", 2)
@@ -170,6 +173,7 @@ func removals(from, shown []string) [][]string {
 // differ in exactly such a pair is not empty and shows both lines.
 func H_C13_collisions() {
 	vxrt.EnvPresent("NO_COLOR")
+	calibratePrettyDiff()
 	pairs := [][2]string{{"costarring", "liquid"}, {"declinate", "macallums"}, {"altarage", "zinke"}, {"creamwove", "quists"}, {"plumless", "buckeroo"}, {"Aa", "BB"}, {"hetairas", "mentioner"}, {"heliotropes", "neurospora"}}
 	p := pairs[vxrt.Choice("pair", len(pairs))]
 	x, y := p[0], p[1]
